@@ -34,7 +34,9 @@ Extras == <<"",
   \* bounds the printer may simplify (uint, sized integer types, merged ranges)
   "d: int & >0 & <10\ne: {x: int & >=0 & <10, y: uint & <2}",
   "d: >0.0 & <1.5\ne: {x: int & >=-128 & <=127, y: int & >=0 & <=255}",
-  "d: number & >=0 & <=2\ne: {x: int & >-1 & <2, y: >=0 & <=1 & int | *\"s\"}">>
+  "d: number & >=0 & <=2\ne: {x: int & >-1 & <2, y: >=0 & <=1 & int | *\"s\"}",
+  \* computed floats (no source literal to copy): large and small exponents, integral values
+  "d: 1e3 * 2\ne: [1e2 * 4, 2.5e3 * 2, 1e-8 * 3, 1.5 + 1.5, 7.0 / 2, 1e30 * 10]">>
 Profiles == {"all", "final", "eval", "export"}
 Aspects == {"data", "types", "disjuncts", "defaults", "optional", "patterns", "definitions", "closedness", "hidden"}
 Shows(p) ==
